@@ -364,3 +364,21 @@ def cardinality_family():
         out.append(('fk_%d_enum_none' % n, [objs + 'K x;\n' + ''.join('x != k%d;\n' % i for i in range(n))], False))
         out.append(('fk_%d_enum_two' % n, [objs + 'K x;\nK y;\nx == k%d;\ny == k%d;\nx == y;\n' % (n - 1, max(0, n - 2))], n == 1))
     return out
+
+
+def exec_pressure_family():
+    """C19: plans in which re-planning after a failure pulls a delayed atom towards earlier times: an atom P on one line; on a
+    second line one of several alternatives (a long job Q, or a fallback R whose distance from P grows with P's lateness, or
+    two short jobs). When Q fails during execution the fallback constraint presses P's start back; what the client delayed
+    must stay delayed; (name, parts, True)"""
+    out = []
+    for k in (5, 7, 9):
+        for pstart in (3, 4):
+            for qdur in (10, 12):
+                L = ['class Line : StateVariable {', '  predicate P() { duration >= 5.0; }', '  predicate Q() { duration >= %s; }' % f(qdur),
+                     '  predicate R() { duration >= 3.0; }', '  predicate S() { duration >= 3.0; }', '}',
+                     'Line l1 = new Line();', 'Line l2 = new Line();', 'goal p = new l1.P();', 'p.start >= %s;' % f(pstart),
+                     '{ goal q = new l2.Q(); q.start >= 1.0; } or { goal r = new l2.R(); r.start >= 20.0; r.start - p.end >= p.start - %s; } or '
+                     '{ goal s0 = new l2.S(); s0.start >= 20.0; goal s1 = new l2.S(); s1.start >= 30.0; }' % f(k)]
+                out.append(('fe_line_%d_%d_%d' % (k, pstart, qdur), ['\n'.join(L) + '\n'], True))
+    return out
